@@ -66,6 +66,11 @@ pub enum Op {
     RemoteDeploy { its: u8, collide: Option<u8>, fresh: u8, meta: Meta, minter: MinterSel },
     /// the ledger advances (the registry must not decay with time)
     AdvanceDays(u8),
+    /// a remote-deployment request through the canonical entry point for one of the canonical candidates, registered
+    /// or not (outcome is C18's subject; here: whatever it answers, no registered id may change)
+    RequestRemoteCanonical { its: u8, asset: u8 },
+    /// ... through the (deployer, salt) entry point
+    RequestRemoteInterchain { its: u8, deployer: u8, salt: u8 },
 }
 
 #[derive(Clone, Debug, Serialize, Deserialize)]
@@ -117,8 +122,10 @@ fn op() -> impl Strategy<Value = Op> {
     prop_oneof![
         5 => (0u8..2, 0u8..2, 0u8..2, meta(), supply(), minter_sel()).prop_map(|(its, deployer, salt, meta, supply, minter)| Op::DeployLocal { its, deployer, salt, meta, supply, minter }),
         3 => (0u8..2, 0u8..4).prop_map(|(its, asset)| Op::RegisterCanonical { its, asset }),
-        3 => (0u8..2, proptest::option::of(0u8..6), 0u8..3, meta(), minter_sel()).prop_map(|(its, collide, fresh, meta, minter)| Op::RemoteDeploy { its, collide, fresh, meta, minter }),
+        3 => (0u8..2, proptest::option::of(0u8..6), 0u8..6, meta(), minter_sel()).prop_map(|(its, collide, fresh, meta, minter)| Op::RemoteDeploy { its, collide, fresh, meta, minter }),
         1 => (1u8..60).prop_map(Op::AdvanceDays),
+        1 => (0u8..2, 0u8..4).prop_map(|(its, asset)| Op::RequestRemoteCanonical { its, asset }),
+        1 => (0u8..2, 0u8..2, 0u8..2).prop_map(|(its, deployer, salt)| Op::RequestRemoteInterchain { its, deployer, salt }),
     ]
 }
 
@@ -146,7 +153,7 @@ impl Property for C11 {
         "C11"
     }
     fn rule(&self) -> &'static str {
-        "proptest histories (<=8 quick / <=14 thorough ops) over two ITS instances with different chain names sharing one gateway: local deployments (3 deployers x 3 salts; metadata plain / multi-byte / decimals 0, 255 / invalid; initial supply -5, 0, 1, 10^30; minter none / third party / deployer / the service itself), canonical registrations (2 Stellar assets, a stand-alone interchain token reporting an id of its own, a token the service deployed itself), approved remote deploy messages with fresh or colliding ids, each possibly repeated. Oracle: ids, salts and token addresses equal the harness's own derivation (own Keccak over own XDR; sha256 of the contract-id preimage); registry (address, manager type) write-once per service, colliding operations fail with the ledger snapshot identical; every deployed token reports id and metadata, is owned by the service, minters = {service} + designated minter, deployer balance = max(supply,0); and an approved inbound transfer to each newly deployed token credits the recipient. non-trivial = a collision attempt, or supply > 0, or a minter present; distinct by Debug hash"
+        "proptest histories (<=8 quick / <=14 thorough ops) over two ITS instances with different chain names sharing one gateway: local deployments (3 deployers x 3 salts; metadata plain / multi-byte / decimals 0, 255 / invalid; initial supply -5, 0, 1, 10^30; minter none / third party / deployer / the service itself), canonical registrations (2 Stellar assets, a stand-alone interchain token reporting an id of its own, a token the service deployed itself), approved remote deploy messages with fresh or colliding ids (also ids that equal the canonical id of a not-yet-registered candidate), remote-deployment requests through both entry points for registered and unregistered tokens (whatever they answer, the registry must not change), each possibly repeated. Oracle: ids, salts and token addresses equal the harness's own derivation (own Keccak over own XDR; sha256 of the contract-id preimage); registry (address, manager type) write-once per service, colliding operations fail with the ledger snapshot identical; every deployed token reports id and metadata, is owned by the service, minters = {service} + designated minter, deployer balance = max(supply,0); and an approved inbound transfer to each newly deployed token credits the recipient. non-trivial = a collision attempt, or supply > 0, or a minter present; distinct by Debug hash"
     }
     fn assumptions(&self) -> Vec<&'static str> {
         vec!["whether a token that is not a plain asset contract may be registered as canonical is not decided by the statement (Either; when it succeeds the id must be the function of chain name and token address)", "local deployment with invalid metadata, with negative supply, or naming the service itself as minter is not decided by the statement (Either; effects checked when it succeeds)"]
@@ -195,7 +202,9 @@ impl Property for C11 {
 
         for (step, op) in case.ops.iter().enumerate() {
             let si = match op {
-                Op::DeployLocal { its, .. } | Op::RegisterCanonical { its, .. } | Op::RemoteDeploy { its, .. } => *its as usize % 2,
+                Op::DeployLocal { its, .. } | Op::RegisterCanonical { its, .. } | Op::RemoteDeploy { its, .. } | Op::RequestRemoteCanonical { its, .. } | Op::RequestRemoteInterchain { its, .. } => {
+                    *its as usize % 2
+                }
                 Op::AdvanceDays(_) => 0,
             };
             // registry sweep helper
@@ -377,12 +386,36 @@ impl Property for C11 {
                         svcs[si].order.push(want_id);
                     }
                 }
+                Op::RequestRemoteCanonical { asset, .. } => {
+                    let s = &svcs[si];
+                    let a = assets[(*asset as usize % 4).min(2)].clone();
+                    w.fund_gas(&w.users[1], 5);
+                    env.mock_all_auths_allowing_non_root_auth();
+                    let r = s.client.try_deploy_remote_canonical_token(&a, &sstr(env, "ethereum"), &w.users[1], &w.gas_token(1));
+                    cx.count("either");
+                    cx.label(if matches!(r, Ok(Ok(_))) { "remote_canonical_request_accepted" } else { "remote_canonical_request_refused" });
+                }
+                Op::RequestRemoteInterchain { deployer, salt, .. } => {
+                    let s = &svcs[si];
+                    let dep = w.users[*deployer as usize % 3].clone();
+                    w.fund_gas(&dep, 5);
+                    env.mock_all_auths_allowing_non_root_auth();
+                    let r = s.client.try_deploy_remote_interchain_token(&dep, &BytesN::from_array(env, &h32("c11-salt", *salt as u64)), &sstr(env, "ethereum"), &w.gas_token(1));
+                    cx.count("either");
+                    cx.label(if matches!(r, Ok(Ok(_))) { "remote_interchain_request_accepted" } else { "remote_interchain_request_refused" });
+                }
                 Op::RemoteDeploy { collide, fresh, meta, minter, .. } => {
                     let s = &svcs[si];
                     let (id, colliding) = match collide {
                         Some(k) if !s.order.is_empty() => (s.order[*k as usize % s.order.len()], true),
                         _ => {
-                            let id = h32(&format!("c11-remote-{}", si), *fresh as u64);
+                            // fresh ids 3..5: the id a canonical candidate *would* get on this service (taken or not yet)
+                            let id = if *fresh >= 3 {
+                                cx.label("remote_deploy_under_a_canonical_candidates_id");
+                                oracle_canonical_token_id(s.chain, &addr_sv(&assets[(*fresh as usize - 3) % 3]))
+                            } else {
+                                h32(&format!("c11-remote-{}", si), *fresh as u64)
+                            };
                             (id, s.reg.contains_key(&id))
                         }
                     };
